@@ -68,8 +68,21 @@ def gen_program(rng, opts=None):
         for _ in range(rng.randint(1, 3)):
             if len(blocks) > opts.get("maxblocks", 12):
                 break
-            shape = rng.choices(["seq", "diamond", "loop"], [3, 2, 3 if depth < 2 else 0])[0]
-            if shape == "seq":
+            shape = rng.choices(["seq", "diamond", "loop", "diseq"], [3, 2, 3 if depth < 2 else 0, 1])[0]
+            if shape == "diseq" and nv >= 2:
+                # a disequality between two variables whose excluded line touches a corner of their box
+                # (disequality lowering through entailment): a is lo or hi by a free choice, b a constant
+                a, bb = rng.sample(range(nv), 2)
+                lo = rng.randint(-4, 4); hi = lo + rng.randint(1, 4); c = rng.randint(-3, 3)
+                t, f, j, g = new_block(), new_block(), new_block(), new_block()
+                blocks[t].append("assign %d E 0 %d" % (a, lo)); blocks[f].append("assign %d E 0 %d" % (a, hi))
+                blocks[j].append("assign %d E 0 %d" % (bb, c))
+                sg = rng.choice([1, -1])
+                k = rng.choice([1, -1]) * (rng.choice([hi, lo]) - c)
+                x1, x2 = sorted([a, bb]); s1 = sg if x1 == a else -sg
+                blocks[g].append("assume C ne E 2 %d %d %d %d %d" % (s1, x1, -s1, x2, k))
+                edges.extend([(cur, t), (cur, f), (t, j), (f, j), (j, g)]); cur = g
+            elif shape == "seq" or shape == "diseq":
                 n = new_block(); edges.append((cur, n)); fill(n); cur = n
             elif shape == "diamond":
                 t, f, j = new_block(), new_block(), new_block()
